@@ -119,14 +119,20 @@ class Parameter:
         # generate the proposed value
         prop = self.rng.normal(loc=self.samples[-1], scale=self.sigma)
 
+        # when non-negativity is also switched on, both limits are in force, so
+        # the proposal is reflected into the part of the boundaries which is >= 0
+        lower, width = self.lower, self.width
+        if self._non_negative and lower < 0.0 < self.upper:
+            lower, width = 0.0, self.upper
+
         # we now pass the proposal through a 'reflecting' function where
         # proposals falling outside the boundary are reflected inside
-        d = prop - self.lower
-        n = (d // self.width) % 2
+        d = prop - lower
+        n = (d // width) % 2
         if n == 0:
-            return self.lower + d % self.width
+            return lower + d % width
         else:
-            return self.upper - d % self.width
+            return self.upper - d % width
 
     def submit_accept_prob(self, p: float):
         self.num += 1
